@@ -53,11 +53,11 @@ func check(c Case) ev.Verdict {
 	o.Neg = c.Neg
 	want := ref.Apply(doc, ops, o.Ref())
 	got := lib.Apply(c.Doc, c.Patch, o)
-	if got.Panic != nil {
-		return ev.Verdict{Err: got.Panic}
-	}
 	if want.OutOfDomain() {
 		return ev.Excluded("out of domain: "+want.Res.Why, "ood")
+	}
+	if got.Panic != nil {
+		return ev.Verdict{Err: got.Panic}
 	}
 	if got.DecodeErr != nil {
 		return ev.Fail("DecodePatch rejected a valid patch: %v", got.DecodeErr)
